@@ -3,6 +3,7 @@ transition (serves C02: elimination; C03: entering P / U; C11: pessimistic set).
 from __future__ import annotations
 
 import itertools
+import time
 from fractions import Fraction
 
 import numpy as np
@@ -159,11 +160,22 @@ def _realise(ex, ctx, name, claim, T, regs, cls_name, ctype, cone, W, alpha, eps
     # queries only on the first 4 (refuting tables are often geometrically impossible, e.g. 'covered with slack ε but not
     # with slack 0', and the realisable ones may come later in the DFS order)
     cheap_only = ex.realise_attempts > 4
-    if ex.realise_attempts > 60:
+    spent = getattr(ex, "realise_spent", 0.0)
+    if ex.realise_attempts > 60 or spent > REALISE_WALL_S or (getattr(ex, "n_candidates", 0) >= 2 and spent > REALISE_WALL_S / 4):
         ex.stop_after_candidates = 0   # enough refuting tables examined: stop exploring this harness
         if not getattr(ex, "n_candidates", 0):
             ex.inconclusive.append("realisation budget exhausted without a realised counterexample")
         return
+    t_real = time.time()
+    try:
+        return _realise_inner(ex, ctx, name, claim, T, regs, cls_name, ctype, cone, W, alpha, eps, a, N, state, prop, rtype, nslack,
+                              cheap_only)
+    finally:
+        ex.realise_spent = spent + time.time() - t_real
+
+
+def _realise_inner(ex, ctx, name, claim, T, regs, cls_name, ctype, cone, W, alpha, eps, a, N, state, prop, rtype, nslack, cheap_only):
+    K, m = W.shape
     def build_defs():
         defs, exact = [], True
         for (kind, i, j, key), v in list(T.vars.items()):
@@ -424,6 +436,8 @@ def replay(case):
     return {"reproduced": bool(bad), "detail": f"{cls_name} from S={sorted(S)},P={sorted(P)},U={sorted(U)}: " + d}
 
 
+REALISE_WALL_S = 360.0   # wall time per harness spent on realising refuting tables (a refuted obligation never passes: without a
+#                          realised counterexample the harness answers inconclusive)
 THOROUGH_CONES = ["orthant2", "theta30", "theta60", "theta90", "theta120", "theta150", "rand2d_0", "rand2d_1", "orthant3", "3d_acute",
                   "3d_obtuse", "asym3d", "icecream_K4", "icecream_K6", "rand3d_0", "rand3d_1"]
 N4_CONES = ("orthant2", "theta60", "theta120")
@@ -455,7 +469,8 @@ def configs(tier, prop):
 def tasks_for(prop, tier, seed):
     ts = []
     for cls, ct, cone, W in configs(tier, prop):
-        N = 4 if (tier != "quick" and cone in N4_CONES) else 3
+        # N = 4 for the PaVeBa family only (about 90 s per task); VOGP / ε-PAL with four designs took over an hour per task
+        N = 4 if (tier != "quick" and cone in N4_CONES and cls in A.PAVEBA) else 3
         if cls == "VOGP_AD":
             N = 3
         if prop == "C11" and cls in A.PAVEBA:
